@@ -354,7 +354,11 @@ def run(tier: str, seed: int) -> int:
     outs = common.pmap(work, items, chunk=32)
     res.notes["parse_wall_s"] = round(time.time() - t0, 2)
     worst = (0.0, None)
+    outs = [o if o is not None else ("no-answer", None, 0.0) for o in outs]
     for (b, cmp_ok), kind, (cls, model, dt) in zip(items, kinds, outs):
+        if cls == "no-answer":
+            res.count("impl:no-answer")
+            continue            # reported through common.PMAP_FAILURES with the input
         res.case(b.hex(), nontrivial=(kind != "unmodified"))
         res.count("kind:" + kind.split(":")[0])
         res.count("impl:" + (cls if cls in OKCLASSES else "internal"))
